@@ -241,8 +241,9 @@ Print Assumptions glue3_nonvacuous.
      Select.search_running s = map pid (filter durably_running s)              -- in STORE order.
    coq/query transcribes the real statement (buildSearchQuery, ORDER BY submit_time DESC, the producer
    goroutine).  GlueSearch.row_of_plan projects a plan to the columns Search reads (id, group, name, descr,
-   submit time, status code; a plan without State - none is ever stored, and Select calls it not Running -
-   gets NotStarted's code); table_of s = map row_of_plan s is the sqlite plans table, cstore_of w s the
+   submit time, status code, State.Start / State.End in nanoseconds; a plan without State - none is ever stored,
+   and Select calls it not Running - gets NotStarted's code and zero times); table_of s = the rows as sqlite
+   stores them (map (sq_cols o row_of_plan) s: time columns through int64) is the sqlite plans table, cstore_of w s the
    cosmosdb store of swarm w (search entries carrying w); running_filter = Filters{ByStatus: [Running]}.
 
    AS I WAS ASKED TO STATE IT ("returns exactly the ids") the claim is true of the ids as a multiset, false of
@@ -293,11 +294,13 @@ Print Assumptions glue4_store_is_history.
 
 (* ... so the published c15_search_exact_sqlite characterises Select's search: its ids are, up to order, the
    ids of a stream that is newest first, duplicate free, closed, and holds exactly the stored plans whose
-   status matches the filter *)
+   status matches the filter (c15's own premise: State.Start / State.End of every plan are the zero time or fit
+   int64 nanoseconds, Spec.op_representable) *)
 Theorem glue4_search_running_by_c15 :
   forall s : Coercion.Select.Rows.store,
     Coercion.Select.Rows.keys_unique s -> ~ In 0%N (map Coercion.Select.Rows.pid s) ->
     Forall (fun p => (0 <= p_submit p)%Z) s ->
+    Forall Spec.op_representable (GlueSearchHistory.creates_of s) ->
     exists xs : list Query.result,
       Query.sq_search GlueSearch.running_filter (Coercion.Query.Rows.sq_run (GlueSearchHistory.creates_of s))
         = Some (map Query.SItem xs ++ [Query.SClose]) /\
